@@ -32,6 +32,8 @@ func checkC06(c *Ctx) {
 	ruleConstIndexGuarded(c, "C06.l", "imapserver", "imapserver/imapmemserver")
 	c.rule("C06.m", "a writer object that holds the response encoder in a field ends it on every path of its Close", 1)
 	ruleFieldEncoderEnded(c, "C06.m")
+	c.rule("C06.n", "a matcher that recurses over string suffixes inside a loop memoises failed sub-problems (no exponential LIST pattern)", 1)
+	ruleOverlappingRecursionMemoised(c, "C06.n", "imapserver", "imapserver/imapmemserver", "internal/imapwire")
 	c.rule("C06.L", "layering lemma", 1)
 	c.rule("C06.i", "no lock-order cycle or same-mutex nesting on the serving goroutine (a self-deadlocked connection goroutine never ends)", 8)
 	ruleLockOrder(c, "C06.i", newLockAnalysis(c.P, serverRoots(c.P), layeringCut(c, "C06.L")))
